@@ -13,6 +13,8 @@
    Abstract syntax (records tagged by `t`)
      expressions   id(n)  str(s,q)  num(i)  lit  dot(o,f)  idx(o,k)  add(l,r)  par(e)  call(g,a)  none
      statements    var(n,e)  decl(n)  set(n,e)  if(c,ss)  fun(n,p,ss,r)  funx(n,p,ss,r)
+                   fun(n,p,p2,ss,r)  a declaration with TWO formal parameters (optional field p2), called by
+                   call(g,a,b) (optional field b); p = "" is a declaration without formal parameters
      top level     pref(root,segs)   $(root.seg...)     parameter reference (regular syntax)
                    jsx(e)            $(e)               JavaScript expression
                    body(ss,r)        ${ ss return r; }  JavaScript function body
@@ -37,6 +39,7 @@ Idx(o, k)    == [t |-> "idx", o |-> o, k |-> k]          \* o[k]
 Add(l, r)    == [t |-> "add", l |-> l, r |-> r]          \* l + r
 Par(e)       == [t |-> "par", e |-> e]                   \* (e)
 Call(g, a)   == [t |-> "call", g |-> g, a |-> a]         \* g(a)   /  g()  when a = NoArg
+Call2(g, a, b) == [t |-> "call", g |-> g, a |-> a, b |-> b]   \* g(a, b)
 
 VarI(n, e)   == [t |-> "var", n |-> n, e |-> e]          \* var n = e;
 VarD(n)      == [t |-> "decl", n |-> n]                  \* var n;
@@ -44,6 +47,10 @@ Set(n, e)    == [t |-> "set", n |-> n, e |-> e]          \* n = e;
 If(c, ss)    == [t |-> "if", c |-> c, ss |-> ss]         \* if (c) { ss }
 Fun(n, p, ss, r)  == [t |-> "fun",  n |-> n, p |-> p, ss |-> ss, r |-> r]  \* function n(p){ ss return r; }
 FunX(n, p, ss, r) == [t |-> "funx", n |-> n, p |-> p, ss |-> ss, r |-> r]  \* var n = function(p){ ss return r; };
+Fun2(n, p, p2, ss, r) == [t |-> "fun", n |-> n, p |-> p, p2 |-> p2, ss |-> ss, r |-> r]  \* function n(p, p2){ ss return r; }
+\* the optional second formal parameter / second argument ("" / none when the field is absent)
+Param2(st) == IF "p2" \in DOMAIN st THEN st.p2 ELSE ""
+Arg2(e)    == IF "b" \in DOMAIN e THEN e.b ELSE NoArg
 
 Seg(k, f)    == [k |-> k, f |-> f]                       \* k: "dot" | "sq" | "dq" | "num"
 PRef(root, segs) == [t |-> "pref", root |-> root, segs |-> segs]
@@ -72,7 +79,7 @@ VNum(i)     == [v |-> "num", i |-> i]
 VBool(b)    == [v |-> "bool", b |-> b]
 VArr        == [v |-> "arr"]                  \* the array ["e0", "e1"]
 VObj(id, via) == [v |-> "obj", id |-> id, via |-> via]
-VFun(p, ss, r) == [v |-> "fun", p |-> p, ss |-> ss, r |-> r]
+VFun(p, p2, ss, r) == [v |-> "fun", p |-> p, p2 |-> p2, ss |-> ss, r |-> r]
 
 \* The data the expressions are evaluated against (the oracle receives exactly this).
 \* inputs.g is the STRING "f": `inputs[inputs.g]` reads g and then f.  inputs.flag is false.
@@ -146,7 +153,7 @@ Exec(st, s) ==
          IN IF ~Live(r.s) THEN r.s
             ELSE IF r.v.v = "other" THEN [r.s EXCEPT !.sup = FALSE]
             ELSE IF Truthy(r.v) THEN ExecSeq(st.ss, 1, r.s) ELSE r.s
-    [] st.t \in {"fun", "funx"} -> [s EXCEPT !.env[st.n] = VFun(st.p, st.ss, st.r)]
+    [] st.t \in {"fun", "funx"} -> [s EXCEPT !.env[st.n] = VFun(st.p, Param2(st), st.ss, st.r)]
 
 ExecSeq(ss, i, s) == IF i > Len(ss) \/ ~Live(s) THEN s ELSE ExecSeq(ss, i + 1, Exec(ss[i], s))
 
@@ -179,12 +186,20 @@ Eval(e, s) ==
          IN IF fn.v # "fun" THEN Throw(s)
             ELSE LET a == Eval(e.a, s)
                  IN IF ~Live(a.s) THEN a
-                    ELSE LET s1 == IF fn.p = "" THEN a.s
-                                   ELSE [a.s EXCEPT !.env[fn.p] = Retag(a.v, "function-argument")]
-                             s2 == ExecSeq(fn.ss, 1, s1)
-                             r  == IF Live(s2) THEN Eval(fn.r, s2) ELSE Ret(VUndef, s2)
-                         IN \* locals of the callee disappear; reads and failure flags stay
-                            Ret(r.v, [r.s EXCEPT !.env = a.s.env])
+                    ELSE LET b == Eval(Arg2(e), a.s)            \* arguments are evaluated left to right
+                         IN IF ~Live(b.s) THEN b
+                            ELSE LET \* a formal parameter is a fresh binding of the callee's scope (undefined when
+                                     \* no argument is passed); the second one wins when both have the same name
+                                     s0 == IF fn.p = "" THEN b.s
+                                           ELSE [b.s EXCEPT !.env[fn.p] = Retag(a.v, "function-argument")]
+                                     s1 == IF fn.p2 = "" THEN s0
+                                           ELSE [s0 EXCEPT !.env[fn.p2] = Retag(b.v, "function-argument")]
+                                     s2 == ExecSeq(fn.ss, 1, s1)
+                                     r  == IF Live(s2) THEN Eval(fn.r, s2) ELSE Ret(VUndef, s2)
+                                 IN \* the scope of the callee ENDS with the call: its parameters and locals
+                                    \* disappear (the names they shadowed are visible again); reads and failure
+                                    \* flags stay
+                                    Ret(r.v, [r.s EXCEPT !.env = b.s.env])
 
 RunTop(e) ==
   CASE e.t = "pref" -> Eval(PRefExpr(e), St0).s
@@ -209,7 +224,7 @@ Nodes(e) == {e} \cup
      [] e.t = "idx"  -> Nodes(e.o) \cup Nodes(e.k)
      [] e.t = "add"  -> Nodes(e.l) \cup Nodes(e.r)
      [] e.t = "par"  -> Nodes(e.e)
-     [] e.t = "call" -> Nodes(e.a)
+     [] e.t = "call" -> Nodes(e.a) \cup Nodes(Arg2(e))
      [] e.t \in {"var", "set"} -> Nodes(e.e)
      [] e.t = "if"   -> Nodes(e.c) \cup SeqNodes(e.ss)
      [] e.t \in {"fun", "funx", "body"} -> SeqNodes(e.ss) \cup Nodes(e.r)
